@@ -36,9 +36,6 @@ Proof.
 Qed.
 
 (* ---------- nrepeat ---------- *)
-Lemma iter_cons_length {A} (x : A) n : length (nat_rect (fun _ => list A) [] (fun _ => cons x) n) = n.
-Proof. induction n as [|n IH]; cbn [nat_rect length]; congruence. Qed.
-
 Lemma nrepeat_repeat {A} (x : A) n : nrepeat x n = repeat x (N.to_nat n).
 Proof.
   unfold nrepeat. rewrite N2Nat.inj_iter.
